@@ -144,6 +144,15 @@ func (a *Asm) Mem(name string, opc byte, align, off uint32) {
 	a.T = append(a.T, fmt.Sprintf("%s:%d", name, off))
 }
 
+func (a *Asm) MemCopy() {
+	a.B = append(a.B, wasm.OpcodeMiscPrefix, byte(wasm.OpcodeMiscMemoryCopy), 0, 0)
+	a.T = append(a.T, "memory.copy")
+}
+func (a *Asm) MemFill() {
+	a.B = append(a.B, wasm.OpcodeMiscPrefix, byte(wasm.OpcodeMiscMemoryFill), 0)
+	a.T = append(a.T, "memory.fill")
+}
+
 // Num emits a plain numeric instruction by opcode (name taken from wazero's table).
 func (a *Asm) Num(opc byte) { a.op(stdName(wasm.InstructionName(opc)), opc) }
 func (a *Asm) Misc(m byte) {
@@ -344,6 +353,9 @@ type Config struct {
 	Floats                       bool
 	Memory                       bool
 	Imports                      int
+	MaxParams, MaxResults        int // 0 = defaults (4, 2)
+	MaxLocals                    int // 0 = default 6
+	Bulk                         bool // memory.copy / memory.fill
 }
 
 type fgen struct {
@@ -689,7 +701,7 @@ func (g *fgen) stmt(depth int) {
 		}
 		return
 	}
-	switch r.Intn(14) {
+	switch r.Intn(17) {
 	case 0, 1, 2:
 		if ls := g.localsOf(t); len(ls) > 0 {
 			g.expr(t, depth+1)
@@ -806,21 +818,135 @@ func (g *fgen) stmt(depth int) {
 		g.expr(I32, depth+1)
 		g.a.BrIf(cands[r.Intn(len(cands))])
 	case 12:
-		cs := g.callees(nil)
-		if len(cs) == 0 {
-			return
-		}
-		f := cs[r.Intn(len(cs))]
-		for _, p := range g.typeOfFunc(f).Params {
+		total := len(g.m.Imports) + len(g.m.Funcs)
+		f := uint32(r.Intn(total))
+		ft := g.typeOfFunc(f)
+		for _, p := range ft.Params {
 			g.expr(p, depth+1)
 		}
 		g.a.Call(f)
+		// multi-value results: keep one in a local sometimes, drop the rest
+		for k := len(ft.Results) - 1; k >= 0; k-- {
+			if ls := g.localsOf(ft.Results[k]); len(ls) > 0 && r.Intn(2) == 0 {
+				g.a.LocalSet(ls[r.Intn(len(ls))])
+			} else {
+				g.a.Drop()
+			}
+		}
+	case 13:
+		g.pressure(depth)
+	case 14:
+		if !g.m.HasMem || !g.cfg.Bulk {
+			return
+		}
+		// dst, src|val, n
+		g.bulkAddr()
+		if r.Intn(2) == 0 {
+			g.bulkAddr()
+			g.bulkLen()
+			g.a.MemCopy()
+		} else {
+			g.expr(I32, depth+1)
+			g.bulkLen()
+			g.a.MemFill()
+		}
 	default:
 		if r.Intn(40) == 0 {
 			g.expr(I32, depth+1)
 			g.a.If(0, false)
 			g.a.Unreachable()
 			g.a.End()
+		}
+	}
+}
+
+func (g *fgen) bulkAddr() {
+	switch g.r.Intn(8) {
+	case 0:
+		g.a.I32Const(uint32(int(g.m.MemMin)*65536 - g.r.Intn(40)))
+	case 1:
+		g.expr(I32, 2)
+	default:
+		g.expr(I32, 2)
+		g.a.I32Const(0xffff)
+		g.a.Num(wasm.OpcodeI32And)
+	}
+}
+
+func (g *fgen) bulkLen() {
+	switch g.r.Intn(8) {
+	case 0:
+		g.a.I32Const(0)
+	case 1:
+		g.expr(I32, 2)
+		g.a.I32Const(0x1ff)
+		g.a.Num(wasm.OpcodeI32And)
+	default:
+		g.a.I32Const(uint32(g.r.Intn(70)))
+	}
+}
+
+// pressure keeps many values live across a call: fill locals, call, then fold them all.
+func (g *fgen) pressure(depth int) {
+	r := g.r
+	var used []uint32
+	n := len(g.locals) - 6
+	for i := 0; i < n; i++ {
+		if !g.ok(g.locals[i]) {
+			continue
+		}
+		g.expr(g.locals[i], depth+2)
+		g.a.LocalSet(uint32(i))
+		used = append(used, uint32(i))
+	}
+	// a call in the middle (any callee), results dropped
+	total := len(g.m.Imports) + len(g.m.Funcs)
+	f := uint32(r.Intn(total))
+	ft := g.typeOfFunc(f)
+	for _, p := range ft.Params {
+		if ls := g.localsOf(p); len(ls) > 0 {
+			g.a.LocalGet(ls[r.Intn(len(ls))])
+		} else {
+			g.leaf(p)
+		}
+	}
+	g.a.Call(f)
+	for range ft.Results {
+		g.a.Drop()
+	}
+	// fold every local of each type into one and store it where it is observable
+	for _, t := range g.types() {
+		var ls []uint32
+		for _, i := range used {
+			if g.locals[i] == t {
+				ls = append(ls, i)
+			}
+		}
+		if len(ls) < 2 {
+			continue
+		}
+		ops := binops[t]
+		g.a.LocalGet(ls[0])
+		for _, i := range ls[1:] {
+			g.a.LocalGet(i)
+			var op numOp
+			for {
+				op = ops[r.Intn(len(ops))]
+				// avoid trapping folds
+				nm := wasm.InstructionName(op.opc)
+				if op.params[0] == t && !strings.Contains(nm, "div") && !strings.Contains(nm, "rem") {
+					break
+				}
+			}
+			g.a.Num(op.opc)
+			if op.float {
+				g.canon(t)
+			}
+		}
+		if gs := g.globalsOf(t); len(gs) > 0 {
+			g.a.GlobalSet(gs[r.Intn(len(gs))])
+		} else {
+			g.a.LocalSet(ls[0])
 		}
 	}
 }
@@ -858,9 +984,19 @@ func Generate(r *rand.Rand, cfg Config) *Module {
 		m.Types = append(m.Types, ft)
 		return len(m.Types) - 1
 	}
+	maxP, maxR, maxL := 4, 2, 6
+	if cfg.MaxParams > 0 {
+		maxP = cfg.MaxParams
+	}
+	if cfg.MaxResults > 0 {
+		maxR = cfg.MaxResults
+	}
+	if cfg.MaxLocals > 0 {
+		maxL = cfg.MaxLocals
+	}
 	randType := func(maxRes int) FuncType {
 		var ft FuncType
-		for i := r.Intn(5); i > 0; i-- {
+		for i := r.Intn(maxP + 1); i > 0; i-- {
 			ft.Params = append(ft.Params, ts[r.Intn(len(ts))])
 		}
 		for i := r.Intn(maxRes + 1); i > 0; i-- {
@@ -873,7 +1009,7 @@ func Generate(r *rand.Rand, cfg Config) *Module {
 	}
 	nf := 1 + r.Intn(cfg.MaxFuncs)
 	for i := 0; i < nf; i++ {
-		m.Funcs = append(m.Funcs, Func{Type: typeIdx(randType(2))})
+		m.Funcs = append(m.Funcs, Func{Type: typeIdx(randType(maxR))})
 	}
 	if r.Intn(4) > 0 {
 		for i := range m.Funcs {
@@ -886,7 +1022,7 @@ func Generate(r *rand.Rand, cfg Config) *Module {
 		g := &fgen{r: r, m: m, cfg: cfg, self: i, params: ft.Params, results: ft.Results, a: &Asm{}}
 		g.locals = append(g.locals, ft.Params...)
 		var decl []VT
-		for k := r.Intn(6); k > 0; k-- {
+		for k := r.Intn(maxL + 1); k > 0; k-- {
 			decl = append(decl, ts[r.Intn(len(ts))])
 		}
 		decl = append(decl, I32, I32)           // loop counters
